@@ -202,6 +202,33 @@ def _judge(case, xs, expected, raise_at, out):
     return None
 
 
+def _check_stop_iteration():
+    """an exception raised by f is propagated - also StopIteration (sequential path: it must not read as 'input exhausted')"""
+    import taskchain.utils.iter as it
+    import taskchain.utils.threading as th
+
+    res = Result()
+    _harness('threading')  # silent progress bar
+    for impl, fn in (('threading', lambda f, xs: th.parallel_map(f, xs, threads=1, use_tqdm=True, chunksize=2)), ('threading-notqdm', lambda f, xs: th.parallel_map(f, xs, threads=1, use_tqdm=False)),
+                     ('iter', lambda f, xs: it.parallel_map(f, xs, threads=1))):
+        for at in (0, 2, 4):
+            xs = [10, 11, 12, 13, 14]
+
+            def f(x):
+                if x == xs[at]:
+                    raise StopIteration('from f')
+                return ('r', x)
+            res.add('evaluations')
+            res.add('transitions')
+            try:
+                r = fn(f, list(xs))
+                res.violations.append(Violation(f'parallel_map[{impl}] exception-lost', f'threads=1, f raises StopIteration at element {at}: the call returned {r!r} instead of propagating',
+                                                {'kind': 'stopiter'}))
+            except (StopIteration, RuntimeError):
+                pass
+    return res
+
+
 def _check_chunked(tier):
     from taskchain.utils.iter import chunked
 
@@ -235,6 +262,7 @@ def run(tier, seed):
     res = Result()
     ck = _check_chunked(tier)
     res.merge(ck)
+    res.merge(_check_stop_iteration())
     if ck.violations:
         # the completion-order controller relies on chunks having the requested size: explore only the unchunked members
         cases = [c for c in cases if c['impl'] == 'iter' or c['chunksize'] >= 1000]
@@ -257,6 +285,8 @@ def replay(case):
     import tcv
 
     tcv.quiet_library()
+    if case['kind'] == 'stopiter':
+        return _check_stop_iteration().violations
     if case['kind'] == 'chunked':
         from taskchain.utils.iter import chunked
         length, size, kind = case['length'], case['size'], case['src']
